@@ -245,6 +245,16 @@ class Encoder:
             return self.column(e, scope)
         if isinstance(e, P.ScalarSub):
             return self.scalar_sub(e.select, scope)
+        if isinstance(e, P.Func):
+            if e.name in ('COALESCE', 'IFNULL') and len(e.args) == 2:
+                a, b = self.expr(e.args[0], scope), self.expr(e.args[1], scope)
+                if a.none is None:
+                    return a
+                if a.kind != b.kind:
+                    raise Unsupported(f'{e.name} of different kinds')
+                bn = b.none if b.none is not None else z3.BoolVal(False)
+                return SV(a.kind, z3.If(a.none, b.z, a.z), z3.simplify(z3.And(a.none, bn)))
+            raise Unsupported(f'SQL function call {e.name}()')
         if isinstance(e, P.Bin):
             if e.op in ('AND', 'OR'):
                 return SV('bool', self.cond(e, scope))
